@@ -23,11 +23,12 @@ SHRINK = 'greedy'
 SHRINK_RUNS = 40
 TIME_BUDGET = {'quick': 170, 'thorough': 1700}
 REQUIRED = {'quick': {'tuple_defaults': 60, 'mutation_visible': 60, 'falsy_result': 60, 'extra_longer_than_defaults': 40, 'interleaved': 200, 'wait_then_drain': 100,
-                      'enqueue_after_close': 40, 'call': 40},
+                      'enqueue_after_close': 40, 'call': 40, 'nested_mutable_default': 100, 'gated_schedule': 10},
             'thorough': {'tuple_defaults': 600, 'mutation_visible': 600, 'falsy_result': 400, 'interleaved': 1000}}
 
 _scalar = st.one_of(st.integers(0, 9), st.sampled_from(['s', None, 0.5]))
-_arg = st.one_of(_scalar, st.lists(_scalar, max_size=2), st.dictionaries(st.sampled_from(['x', 'y']), _scalar, max_size=2))
+_flat = st.one_of(_scalar, st.lists(_scalar, max_size=2), st.dictionaries(st.sampled_from(['x', 'y']), _scalar, max_size=2))
+_arg = st.one_of(_flat, _flat, st.lists(_flat, max_size=2), st.dictionaries(st.sampled_from(['x', 'y']), _flat, max_size=2))
 _kw = st.dictionaries(st.sampled_from(['a', 'b', 'c']), _arg, max_size=3)
 
 
@@ -56,6 +57,111 @@ def strategy(tier):
     })
 
 
+def exhaustive(tier, shard, nshards):
+    # the worker delivers its last result and dies exactly before / after the k-th interaction of the parent with the results endpoint
+    idx = 0
+    for k in range(0, 4):
+        for when in ('pre', 'post'):
+            for reads in (1, 2):
+                idx += 1
+                if idx % nshards == shard:
+                    yield {'gated': True, 'k': k, 'when': when, 'reads': reads}
+
+
+class _GatedEndpoint:
+    def __init__(self, q, hook):
+        self._q = q
+        self._hook = hook
+        self.calls = 0
+
+    def _around(self, fn, *a, **kw):
+        i = self.calls
+        self.calls += 1
+        self._hook(i, 'pre')
+        try:
+            return fn(*a, **kw)
+        finally:
+            self._hook(i, 'post')
+
+    def get(self, block=True, timeout=None):
+        return self._around(self._q.get, block, timeout)
+
+    def get_nowait(self):
+        return self._around(self._q.get_nowait)
+
+    def put(self, item):
+        return self._q.put(item)
+
+    def close(self):
+        pass
+
+
+class _GatedPipe:
+    def __init__(self, hook):
+        self._q = queue.Queue()
+        self.parent_end = _GatedEndpoint(self._q, hook)
+        self.child_end = self._q
+        self._q.close = lambda: None
+
+
+def run_gated(case, ctx, out):
+    import os
+    import threading
+    from pyworkers.persistent_thread import PersistentThreadWorker
+    gate = os.path.join(ctx.scratch, IC.fresh_name(ctx, 'c05') + '.gate')
+    box = {}
+    fired = {'done': False}
+
+    def hook(i, when):
+        if fired['done'] or i != case['k'] or when != case['when']:
+            return
+        fired['done'] = True
+        open(gate, 'w').close()                 # the worker answers now ...
+        w = box.get('w')
+        t_end = time.time() + 5
+        while w is not None and w._child.is_alive() and time.time() < t_end:      # ... and is gone before the parent goes on
+            time.sleep(0.002)
+    out.label('gated_schedule')
+    out.nontrivial = True
+    site = f'p_thread:gated:{case["when"]}#{case["k"]}'
+    pipe = _GatedPipe(hook)
+    w = PersistentThreadWorker(vtargets.gated_echo, results_pipe=pipe, args=[0, gate])
+    box['w'] = w
+    opener = threading.Timer(1.0, lambda: open(gate, 'w').close())     # the schedule point may never be reached: the worker answers anyway
+    opener.start()
+    try:
+        w.enqueue(5)
+        w.close()
+        got = []
+        try:
+            for _ in range(case['reads']):
+                try:
+                    got.append(bounded(w.next_result, 20))
+                except queue.Empty:
+                    got.append('EMPTY')
+        except Blocked:
+            out.viol('next_result_blocked', site, f'got {got} so far')
+            return out
+        if got[0] != ('r', 5):
+            out.viol('result_missing', site, f'one item enqueued and answered, next_result() sequence: {got!r}')
+        elif case['reads'] == 2 and got[1] != 'EMPTY':
+            out.viol('value_past_end', site, repr(got))
+        ok = bounded(w.wait, 20, 5)
+        rest = list(w.results_iter()) if ok else None
+        if got[0] == ('r', 5) and rest:
+            out.viol('duplicate_result', site, repr(rest))
+        out.obs = {'got': [repr(g) for g in got], 'endpoint_calls': pipe.parent_end.calls, 'fired': fired['done']}
+    finally:
+        opener.cancel()
+        try:
+            open(gate, 'w').close()
+            bounded(w.terminate, 10, 1, False)
+            os.unlink(gate)
+        except BaseException:
+            pass
+    return out
+
+
 def model_value(case, extra_args, extra_kwargs):
     d_args = [] if case['args_none'] else copy.deepcopy(case['args'])
     kw = copy.deepcopy(case['kwargs'])
@@ -71,11 +177,13 @@ def model_value(case, extra_args, extra_kwargs):
 def run_case(case, ctx):
     from pyworkers.persistent import WorkerClosedError
     out = Out()
+    if case.get('gated'):
+        return run_gated(case, ctx, out)
     kind = case['kind']
     cls = IC.KINDS[kind]
     out.label('kind:' + kind)
     if case['target'] == 'echo':
-        target, d_args = vtargets.echo_and_mutate, list(case['args'])
+        target, d_args = vtargets.echo_and_mutate_deep, list(case['args'])
     else:
         target, d_args = vtargets.ret_spec, [case['target'].split(':')[1]] + list(case['args'])
     if case['args_none']:
@@ -101,6 +209,9 @@ def run_case(case, ctx):
     steps = []
     offset = 0 if case['target'] == 'echo' else 1       # ret_spec takes the spec as first positional default
     any_mutable_default = any(isinstance(a, (list, dict)) for a in list(case['args']) + list(case['kwargs'].values()))
+    if any(isinstance(a, (list, dict)) and any(isinstance(b, (list, dict)) for b in (a if isinstance(a, list) else a.values()))
+           for a in list(case['args']) + list(case['kwargs'].values())):
+        out.label('nested_mutable_default')
 
     def mv(ea, ek):
         if case['target'] == 'echo':
@@ -270,6 +381,8 @@ def _same(a, b):
 
 
 def simplify(case):
+    if case.get('gated'):
+        return
     ops = case['ops']
     for i in range(len(ops) - 1, -1, -1):
         yield dict(case, ops=ops[:i] + ops[i + 1:])
